@@ -131,8 +131,37 @@ def cns(ns):
     return "(" + vf.coq_list([vf.coq_N(n) for n in ns]) + ")"
 
 
+def coinciding(rng):
+    """Values with repeated elements at non-last positions whose conditional weights W/remaining-total coincide
+    (all equal to r): the per-position facts must still be different facts.  Built backwards from the last weight."""
+    n = rng.choice([3, 3, 4, 4, 5, 6])
+    num, den = rng.choice([(1, 2), (1, 2), (1, 3), (2, 3), (1, 4), (3, 4)])
+    r = Fraction(num, den)
+    rem = Fraction((den - num) ** (n - 1)) * rng.choice([1, 1, 2, 3])
+    ws = [rem]
+    for _ in range(n - 1):
+        w = r / (1 - r) * rem
+        ws.insert(0, w)
+        rem += w
+    assert all(w.denominator == 1 for w in ws)
+    if rng.random() < 0.3:       # only a prefix coincides
+        ws[-1] = ws[-1] + rng.choice([1, 2])
+    shape = rng.random()
+    if shape < 0.4:
+        vs = ["a"] * (n - 1) + ["b"]
+    elif shape < 0.6:
+        vs = ["a"] * n
+    elif shape < 0.8:
+        vs = ["a", "a"] + [rng.choice(["a", "b", "c"]) for _ in range(n - 2)]
+    else:
+        vs = [rng.choice(["a", "b"]) for _ in range(n)]
+    return vs, [str(int(w)) for w in ws]
+
+
 def gen_scenario(rng):
     def one():
+        if rng.random() < 0.35:
+            return coinciding(rng)
         n = rng.choice([1, 2, 2, 3, 3, 4, 5, 6])
         pool = ATOMS[:rng.choice([1, 2, 3, 4])]
         vs = [rng.choice(pool) for _ in range(n)]
@@ -169,7 +198,7 @@ def run(ctx):
     ctx.cov["rule"] = ("scenarios: value lists of length 1-6 over 1-4 distinct atoms (equal elements frequent), weights from "
                        "ints/dyadic/decimal literals (all-equal in 1/4 of the cases), identifiers incl. compound and quoted; each "
                        "scenario queries select_weighted/5, select_weighted/4 (pairs), select_uniform/4, the joint of two calls "
-                       "with the same id and of two calls with different ids (second list independent in half the cases); "
+                       "with the same id and of two calls with different ids (second list independent in half the cases); 35% of the lists (+5 fixed ones) have repeated elements at non-last positions whose conditional weights W/remaining coincide; "
                        "non-trivial = length >= 3 with a repeated element or unequal weights")
     ctx.assumptions += [
         "the function `sw` of ModelSelectW.v is the reading of the three sw/6 clauses (syntactic equality of the parsed "
@@ -189,7 +218,12 @@ def run(ctx):
     if model_current:
         ctx.prove("C32/Props.v")
     n = ctx.n(30, 500)
-    scs = [gen_scenario(ctx.rng) for _ in range(n)]
+    directed = [(["a", "a", "b"], ["2", "1", "1"]), (["a", "a", "a", "b"], ["4", "2", "1", "1"]),
+                (["a", "a", "a", "b"], ["1", "1", "1", "1"]), (["a", "b", "a", "b"], ["9", "6", "4", "8"]),
+                (["a", "a", "a"], ["2", "1", "1"])]
+    scs = [{"vs": v, "wtxt": w, "vs2": v, "wtxt2": w, "id1": IDS[k % len(IDS)], "id2": IDS[(k + 1) % len(IDS)]}
+           for k, (v, w) in enumerate(directed)]
+    scs += [gen_scenario(ctx.rng) for _ in range(n)]
     if ctx.replay:
         r = ctx.replay.get("replay", ctx.replay)
         scs = [r["scenario"]]
@@ -206,6 +240,12 @@ def run(ctx):
                  sample={"values": vs, "weights": sc["wtxt"], "id": sc["id1"], "result": repr(res) if isinstance(res, tuple) else {repr(k): v for k, v in res.get("s5", {}).items()}})
         ctx.count("len_%d" % len(vs))
         ctx.count("equal_elements" if len(set(vs)) < len(vs) else "distinct_elements")
+        rem, conds = sum(ws), []
+        for w, v in list(zip(ws, vs))[:-1]:
+            conds.append((v, w / rem))
+            rem -= w
+        if len(set(conds)) < len(conds):
+            ctx.count("equal_element_with_coinciding_conditional_weight")
         if isinstance(res, tuple):
             ctx.violation("select_weighted scenario failed with %s" % res[1], {"scenario": sc, "program": scenario_program(sc)}, klass=None)
             continue
@@ -242,6 +282,10 @@ def run(ctx):
                     cases.append("q_is (joint %s %s %s %s %s %s %s %s) %s"
                                  % (i1, i2, cqs(ws), cns(cv), cqs(ws2), cns(cv2), ans(k1), ans(k2), cq(p1 * p2)))
                     metas.append(("joint-different-ids", sc))
+    if not model_current:
+        ctx.notes.append("model is stale (the clauses could not be regenerated): the Coq side of the tie was skipped; the real "
+                         "library was still judged against w_i/sum(w) on %d scenarios" % len(scs))
+        return
     ctx.log("evaluating %d model cases in Coq" % len(cases))
     try:
         bad = ctx.coq_failing(HEADER, cases, name="c32", shard=ctx.n(150, 400))
